@@ -144,6 +144,16 @@ func (env *vhClientEnv) checks(ses *Session, err error) {
 			}
 		}
 	}
+	// a confirmed option that cannot be applied ends the handshake: nothing more is said on the half-switched connection
+	if t.setFailed {
+		vReach("c09:client-option-switch-failed")
+		vAssert(err != nil, "c09:client-failed-option-switch-ends-the-handshake")
+		for i := t.sentAtFail; i < len(t.sent); i++ {
+			if s, ok := t.sent[i].(*Session); ok {
+				vAssert(s.Authentication == nil, "c09:client-sends-no-credentials-after-a-failed-option-switch")
+			}
+		}
+	}
 	// finished / failed from the server closes the connection
 	if t.lastRx != nil && t.rxErrs == 0 && t.rxAliens == 0 {
 		if t.lastRx.State == SessionStateFinished || t.lastRx.State == SessionStateFailed {
